@@ -55,6 +55,68 @@ func scanArgField(ca *coverAnalysis, v ssa.Value, li *loopInfo) (string, bool) {
 	return "", false
 }
 
+// isGenericScan: the function scans whatever a node contains - it calls Children() on its node parameter, ranges over
+// the result and hands every element (directly, or after a type switch) to scan functions. Which children a node has
+// is C14's business (children_cover); here only the shape of the traversal is checked.
+func isGenericScan(f *ssa.Function) bool {
+	if f == nil || len(f.Blocks) == 0 || !isScanFn(f) {
+		return false
+	}
+	var kids ssa.Value
+	for _, b := range f.Blocks {
+		for _, ins := range b.Instrs {
+			if c, ok := ins.(*ssa.Call); ok && c.Call.IsInvoke() && c.Call.Method.Name() == "Children" {
+				if _, isParam := c.Call.Value.(*ssa.Parameter); isParam {
+					kids = c
+				}
+			}
+		}
+	}
+	if kids == nil {
+		return false
+	}
+	// some scan call takes a value derived from an element of kids
+	var fromKids func(v ssa.Value, d int) bool
+	fromKids = func(v ssa.Value, d int) bool {
+		if d > 8 {
+			return false
+		}
+		switch x := v.(type) {
+		case *ssa.UnOp:
+			return fromKids(x.X, d+1)
+		case *ssa.IndexAddr:
+			return x.X == kids
+		case *ssa.TypeAssert:
+			return fromKids(x.X, d+1)
+		case *ssa.Extract:
+			return fromKids(x.Tuple, d+1)
+		case *ssa.ChangeInterface:
+			return fromKids(x.X, d+1)
+		case *ssa.MakeInterface:
+			return fromKids(x.X, d+1)
+		case *ssa.Phi:
+			for _, e := range x.Edges {
+				if fromKids(e, d+1) {
+					return true
+				}
+			}
+		}
+		return false
+	}
+	for _, b := range f.Blocks {
+		for _, ins := range b.Instrs {
+			if c, ok := ins.(*ssa.Call); ok && isScanFn(c.Call.StaticCallee()) {
+				for _, a := range c.Call.Args[1:] {
+					if fromKids(a, 0) {
+						return true
+					}
+				}
+			}
+		}
+	}
+	return false
+}
+
 func runC16(e *Engine, tier Tier) *PropRun {
 	astPkg := e.SPkgs[modPath+"/pkg/sql/ast"]
 	sec := e.SPkgs[secPkg]
@@ -269,9 +331,29 @@ func runC16(e *Engine, tier Tier) *PropRun {
 				names = append(names, nt.Obj().Name())
 			}
 			sort.Strings(names)
+			// a default branch that hands the switch operand (the interface parameter itself) to a generic scan covers
+			// every type that has no case of its own
+			generic := false
+			for _, b := range fn.Blocks {
+				for _, ins := range b.Instrs {
+					c, ok := ins.(*ssa.Call)
+					if !ok || !isGenericScan(c.Call.StaticCallee()) {
+						continue
+					}
+					for _, a := range c.Call.Args[1:] {
+						w := a
+						if ci, ok := w.(*ssa.ChangeInterface); ok {
+							w = ci.X
+						}
+						if p, ok := w.(*ssa.Parameter); ok && p == fn.Params[1] {
+							generic = true
+						}
+					}
+				}
+			}
 			for _, n := range names {
 				ans := "sat"
-				if handled[n] {
+				if handled[n] || generic {
 					ans = "unsat"
 				}
 				nCover++
